@@ -71,20 +71,23 @@ inline std::ostream& operator<<(std::ostream& out, const ada::url& u) {
         out.host_start += uint32_t(password.size() + 1);
       }
 
-      out.host_end = uint32_t(out.host_start + host->size());
+      // host_start is the index of the "@": the host text starts right after it.
+      out.host_end = uint32_t(out.host_start + 1 + host->size());
     } else {
       out.username_end = out.host_start;
 
       // Host does not start with "@" if it does not include credentials.
-      out.host_end = uint32_t(out.host_start + host->size()) - 1;
+      out.host_end = uint32_t(out.host_start + host->size());
     }
 
-    running_index = out.host_end + 1;
+    // host_end is the index right after the host, as in url_aggregator.
+    running_index = out.host_end;
   } else {
     // Update host start and end date to the same index, since it does not
     // exist.
     out.host_start = out.protocol_end;
     out.host_end = out.host_start;
+    out.username_end = out.host_start;
 
     if (!has_opaque_path && path.starts_with("//")) {
       // If url's host is null, url does not have an opaque path, url's path's
